@@ -44,27 +44,33 @@ def r1_driver(ctx):
     calls = []
     bad = []
     n = 0
-    for below in ((), ("b0",), ("b0", "b1")):
+    import statemodel
+    for below, owner in (((), 0), (("b0",), 0), (("b0", "b1"), 0), (("b0",), 1)):
         for outcome, label in ((ok(Vec("result")), "ok"), (err(Sym("boom")), "err")):
             def repl(interp, env, f, args):
                 got = (getattr(load(interp, env, args[1]), "vid", None), getattr(load(interp, env, args[2]), "vid", None))
                 calls.append(got)
                 interp.mstate["replace_args"] = interp.mstate.get("replace_args", ()) + (got,)
                 return interp.mstate.get("outcome")
-            popsym = Sym("populations", {sf: Sym("stack")})
-            table = {"mahf::state::State::populations_mut": popsym, "mahf::state::State::populations": popsym, "mahf::state::State::random_mut": Sym("rng"),
-                     REPL + "Replacement::replace": repl}
-            it = install(Interp(fn.body, chain(mk_oracle(table), StackModel(sf), coll_oracle, std_oracle), [Sym("component"), Sym("problem"), Sym("state")], facts=F,
-                                inline=lambda k: k.startswith(POP + "::") or INL(k), max_visits=10))
+            cells, popsym, _sf = statemodel.stack_and_rng(F, owner)
+            store = statemodel.Store(F, levels=2, auto=statemodel.by_prefix(F, cells))
+            table = {REPL + "Replacement::replace": repl}
+            it = install(Interp(fn.body, chain(mk_oracle(table), store, StackModel(sf), coll_oracle, std_oracle), [Sym("component"), Sym("problem"), Sym("state")], facts=F,
+                                inline=lambda k: k.startswith(POP + "::") or INL(k) or statemodel.inline(k), max_visits=10))
             heap = {"parents": (c07.ind(0),), "offspring": (c07.ind(1),), "result": (c07.ind(2),)}
             for j, bname in enumerate(below):
                 heap[bname] = (c07.ind(10 + j),)
             it.init_state = {"outcome": outcome, "stack": tuple(Vec(x) for x in below) + (Vec("parents"), Vec("offspring")), "heap": heap, "next_vec": 0}
+            store.install(it)
             n += 1
-            where = "with %d other population(s) underneath, " % len(below)
+            where = "with %d other population(s) underneath%s, " % (len(below), " and the stack owned by the enclosing scope" if owner else "")
             for p in it.run():
                 names = [getattr(x, "vid", repr(x)) for x in p.mstate.get("stack", ())]
                 rargs = p.mstate.get("replace_args", ())
+                held = {ty.split("<")[0].split("::")[-1]: store.holders(p, ty) for ty in store.types()}
+                if any(ls != [owner] for ls in held.values()):
+                    bad.append(where + "the driver leaves %s held by scope level(s) %s; the stack and the generator belong to scope level %d and stay there" % (sorted(held), sorted(held.values()), owner))
+                    continue
                 if p.mstate.get("unmodelled"):
                     bad.append(where + "the driver applies %s to the stack" % (p.mstate["unmodelled"],))
                     continue
